@@ -7,6 +7,7 @@ from sqllineage.core.models import Column, Schema, SubQuery, Table
 from sqllineage.core.parser.sqlfluff.utils import (
     extract_column_qualifier,
     extract_identifier,
+    is_bracketed_subquery,
     is_subquery,
     is_wildcard,
     list_child_segments,
@@ -158,9 +159,15 @@ class SqlFluffColumn(Column):
             if cqt := extract_column_qualifier(segment):
                 col_list = [cqt]
         elif segment.type in FUNCTION_SEGMENT_TYPE:
-            for bracketed in segment.recursive_crawl("bracketed"):
+            for bracketed in segment.recursive_crawl(
+                "bracketed", no_recursive_seg_type="select_statement"
+            ):
                 # the bracketed could be in function_contents or over_clause in case of window function
-                col_list += SqlFluffColumn._get_column_from_parenthesis(bracketed)
+                if is_bracketed_subquery(bracketed):
+                    # a subquery as function argument is a scope of its own, its columns are not the outer query's
+                    col_list += SqlFluffColumn._get_column_from_subquery(bracketed)
+                else:
+                    col_list += SqlFluffColumn._get_column_from_parenthesis(bracketed)
         elif segment.type in NON_IDENTIFIER_OR_COLUMN_SEGMENT_TYPE:
             sub_segments = list_child_segments(segment)
             col_list = []
